@@ -33,12 +33,28 @@ def main():
         rc, out = sh("cargo test --workspace --no-fail-fast --offline 2>&1")
         sp, sf = counts(out)
         compiled = "error: could not compile" not in out
-        shutil.copy(os.path.join(sd, "demo.rs"), os.path.join(WT, "minicbor-tests/tests/seed_demo.rs"))
-        rc1, out1 = sh("cargo test -p minicbor-tests --features std,derive --test seed_demo --offline 2>&1")
-        p1, f1 = counts(out1)
-        sh("git checkout -q -- .")      # the demo file is untracked and stays
-        rc2, out2 = sh("cargo test -p minicbor-tests --features std,derive --test seed_demo --offline 2>&1")
-        p2, f2 = counts(out2)
+        demo_txt = json.dumps(meta)
+        runsh = os.path.join(sd, "demo", "run.sh")
+        if os.path.exists(runsh):
+            # a stand-alone demonstration program with its own run script (written against the seeding worktree /tmp/wt/<P>)
+            owt = f"/tmp/wt/{P}"
+            sh("git checkout -q -- .", cwd=owt); sh(f"git apply {sd}/patch.diff", cwd=owt)
+            rc1, out1 = sh(f"sh {runsh} 2>&1", cwd=os.path.dirname(runsh)); p1 = f1 = 0
+            sh("git checkout -q -- .", cwd=owt)
+            rc2, out2 = sh(f"sh {runsh} 2>&1", cwd=os.path.dirname(runsh)); p2 = f2 = 0
+            democmd = f"sh {runsh} (builds the program against /tmp/wt/{P} in three feature configurations and diffs the transcripts)"
+        else:
+            if "minicbor-serde/tests" in demo_txt:
+                dst_demo, democmd = "minicbor-serde/tests/seed_demo.rs", "cargo test -p minicbor-serde --features std --test seed_demo --offline"
+            else:
+                dst_demo, democmd = "minicbor-tests/tests/seed_demo.rs", "cargo test -p minicbor-tests --features std,derive --test seed_demo --offline"
+            os.makedirs(os.path.dirname(os.path.join(WT, dst_demo)), exist_ok=True)
+            shutil.copy(os.path.join(sd, "demo.rs"), os.path.join(WT, dst_demo))
+            rc1, out1 = sh(democmd + " 2>&1")
+            p1, f1 = counts(out1)
+            sh("git checkout -q -- .")      # the demo file is untracked and stays
+            rc2, out2 = sh(democmd + " 2>&1")
+            p2, f2 = counts(out2)
         ok = compiled and sf == 0 and sp >= 54 and rc1 != 0 and rc2 == 0
         print(f"{P}/{k}: suite {sp} passed {sf} failed; demo with patch rc={rc1} ({p1} passed, {f1} failed); without rc={rc2} ({p2} passed, {f2} failed) -> {'CONFIRMED' if ok else 'NOT CONFIRMED'}", flush=True)
         if ok:
@@ -46,6 +62,8 @@ def main():
             os.makedirs(dst, exist_ok=True)
             shutil.copy(os.path.join(sd, "patch.diff"), dst)
             shutil.copy(os.path.join(sd, "demo.rs"), dst)
+            if os.path.isdir(os.path.join(sd, "demo")):
+                shutil.copytree(os.path.join(sd, "demo"), os.path.join(dst, "demo"), dirs_exist_ok=True, ignore=shutil.ignore_patterns("target"))
             meta["property"] = P
             meta["confirmed_by_lead"] = {
                 "worktree": "scratch git worktree of /repo at its HEAD (removed afterwards)",
